@@ -7,6 +7,8 @@ CONSTANTS
   CutRecs = 0
   PreKinds = {"none"}
   Layouts = {"gaps"}
+  MultiPre = {"none"}
+  MultiLayouts = {"gaps"}
 INVARIANT ExtReadable
 INVARIANT ReaderBounded
 CONSTRAINT DumpConstraint
